@@ -335,8 +335,17 @@ func ActiveOf(index am.S, t am.Time) am.S {
 // Bubbles: helper to dispose handler-bound machines inside a synctest bubble.
 type Disposer struct{ ms []*am.Machine }
 
-func (d *Disposer) Track(m *am.Machine) { d.ms = append(d.ms, m) }
-func (d *Disposer) Len() int            { return len(d.ms) }
+// Track registers a machine for disposal. Explorations use one machine at a
+// time, so once many have piled up the earlier ones are released at once
+// (every handler-bound machine holds a goroutine; a thorough-tier job creates
+// hundreds of thousands).
+func (d *Disposer) Track(m *am.Machine) {
+	if len(d.ms) >= 1024 {
+		d.DisposeAll()
+	}
+	d.ms = append(d.ms, m)
+}
+func (d *Disposer) Len() int { return len(d.ms) }
 func (d *Disposer) DisposeAll() {
 	for _, m := range d.ms {
 		m.Dispose()
